@@ -2,6 +2,7 @@ package main
 
 import (
 	"fmt"
+	"strings"
 	"time"
 )
 
@@ -326,6 +327,234 @@ func init() {
 		c09Jobs, func(a *Aggregate) string {
 			if a.Extra["fault_scenarios"] < 100 {
 				return "fewer than 100 cut/restart scenarios were run"
+			}
+			return ""
+		})
+}
+
+// ------------------------------------------------------------------ C14 (E4: twin runs under shifted virtual epochs)
+
+var forceObs bool
+
+const c14Base = int64(1_700_000_000) * 1_000_000_000
+
+var c14Offsets = []struct {
+	name string
+	ns   int64
+}{
+	{"-30y", -30 * 365 * 86400 * 1_000_000_000},
+	{"-1d", -86400 * 1_000_000_000},
+	{"+1 increment", 1_000_000},
+	{"+1d", 86400 * 1_000_000_000},
+	{"+200y", 200 * 365 * 86400 * 1_000_000_000},
+}
+
+// pathChoices re-expresses a path as choice indices into enabled() (payload hashes depend on timestamps, indices do not).
+func pathChoices(sc *Scenario, path []Event) ([]int, []Event) {
+	s2 := *sc
+	s2.e2cache = nil
+	s2.ClockNs = c14Base
+	w := newWorld(&s2, newStats())
+	var idx []int
+	for _, e := range path {
+		evs := w.enabled()
+		found := -1
+		for i := range evs {
+			if evs[i].same(e) {
+				found = i
+				break
+			}
+		}
+		if found < 0 {
+			panic(harnessFault{"c14: base path not reproducible: " + e.String()})
+		}
+		idx = append(idx, found)
+		w.apply(e)
+	}
+	return idx, path
+}
+
+// runObs executes the choice sequence on a world whose virtual clock starts at clock; returns per-node observations
+// or a divergence description.
+func runObs(sc *Scenario, clock int64, idx []int, base []Event) (obs [][]string, diverged string) {
+	s2 := *sc
+	s2.e2cache = nil
+	s2.ClockNs = clock
+	forceObs = true
+	defer func() {
+		forceObs = false
+		if r := recover(); r != nil {
+			if hf, ok := r.(harnessFault); ok {
+				diverged = hf.msg
+				return
+			}
+			panic(r)
+		}
+	}()
+	w := newWorld(&s2, newStats())
+	for step, i := range idx {
+		evs := w.enabled()
+		if i >= len(evs) {
+			return nil, fmt.Sprintf("step %d: %d events enabled, the base epoch took choice %d (%s)", step, len(evs), i, base[step].K)
+		}
+		if evs[i].K != base[step].K || evs[i].N != base[step].N {
+			return nil, fmt.Sprintf("step %d: choice %d is %s at node %d, in the base epoch %s at node %d", step, i, evs[i].K, evs[i].N, base[step].K, base[step].N)
+		}
+		w.apply(evs[i])
+	}
+	return w.obs, ""
+}
+
+func c14Compare(sc *Scenario, path []Event) (key, msg string) {
+	idx, bp := pathChoices(sc, path)
+	base, div := runObs(sc, c14Base, idx, bp)
+	if div != "" {
+		panic(harnessFault{"c14: base epoch diverged from itself: " + div})
+	}
+	for _, off := range c14Offsets {
+		o, div := runObs(sc, c14Base+off.ns, idx, bp)
+		if div != "" {
+			return "C14/behaviour-differs-under-shifted-clock", fmt.Sprintf("epoch %s: the same schedule is not executable: %s", off.name, div)
+		}
+		for n := range base {
+			if len(o[n]) != len(base[n]) {
+				return "C14/observations-differ-under-shifted-clock", fmt.Sprintf("epoch %s: node %d made %d timer calls / broadcasts / decisions, %d in the base epoch; first difference: %s", off.name, n, len(o[n]), len(base[n]), firstDiff(base[n], o[n]))
+			}
+			for i := range base[n] {
+				if o[n][i] != base[n][i] {
+					return "C14/observations-differ-under-shifted-clock", fmt.Sprintf("epoch %s: node %d observation %d: %q, in the base epoch %q", off.name, n, i, o[n][i], base[n][i])
+				}
+			}
+		}
+	}
+	return "", ""
+}
+
+func firstDiff(a, b []string) string {
+	for i := 0; i < len(a) && i < len(b); i++ {
+		if a[i] != b[i] {
+			return fmt.Sprintf("#%d %q vs %q", i, b[i], a[i])
+		}
+	}
+	return "one sequence is a prefix of the other"
+}
+
+func init() {
+	customJobs["c14"] = func(j *Job, budget time.Duration) *Result {
+		sc := j.Scenario
+		sc.ClockNs = c14Base
+		x := newExplorer(sc, budget)
+		x.prop = j.Prop
+		x.onTerminal = func(w *World, path []Event) {
+			x.res.Extra["paths_compared"]++
+			x.res.Extra["epoch_runs"] += 1 + len(c14Offsets)
+			if key, msg := c14Compare(sc, path); key != "" {
+				w.violate("C14", key, nil, msg)
+				x.check(w, append(append([]Event{}, path...), Event{K: "epochs"}))
+			}
+		}
+		if sc.E2 != nil {
+			x.onTerminal = nil
+			x.onState = func(w *World, path []Event) {
+				if len(path) == 0 {
+					return
+				}
+				x.res.Extra["paths_compared"]++
+				x.res.Extra["epoch_runs"] += 1 + len(c14Offsets)
+				if key, msg := c14Compare(sc, path); key != "" {
+					w.violate("C14", key, nil, msg)
+					x.check(w, append(append([]Event{}, path...), Event{K: "epochs"}))
+				}
+			}
+		}
+		return runC14(x)
+	}
+}
+
+// runC14 turns "same virtual inputs, different state" (the explorer's determinism guard) into a C14 violation:
+// with every input virtual, only the machine's wall clock can make two identical runs differ.
+func runC14(x *Explorer) (res *Result) {
+	defer func() {
+		if r := recover(); r != nil {
+			hf, ok := r.(harnessFault)
+			if !ok || !strings.Contains(hf.msg, "nondeterministic default path") {
+				panic(r)
+			}
+			res = x.res
+			res.Found = append(res.Found, Found{Violation: Violation{"C14", "C14/wall-clock-dependence/same-inputs-different-state", -1,
+				"two executions of the same schedule with the same virtual clock and callback answers ended in different states: " + hf.msg},
+				Path: []Event{{K: "detcheck"}}, Scenario: x.sc})
+		}
+	}()
+	return x.run()
+}
+
+// detCheck runs the default schedule twice on fresh instances and compares the final state keys.
+func (w *World) detCheck() {
+	run := func() [2]uint64 {
+		v := newWorld(w.sc, newStats())
+		for {
+			evs := v.enabled()
+			if len(evs) == 0 || evs[0].Cost != 0 {
+				break
+			}
+			v.apply(evs[0])
+		}
+		return v.key()
+	}
+	a := run()
+	time.Sleep(3 * time.Millisecond)
+	b := run()
+	curWorld = w
+	if a != b {
+		w.violate("C14", "C14/wall-clock-dependence/same-inputs-different-state", nil, "two executions of the default schedule with identical virtual inputs ended in different states")
+	}
+}
+
+func c14Jobs(tier string) []*Job {
+	var jobs []*Job
+	per, k := 120, 2
+	if tier == "thorough" {
+		per, k = 1200, 3
+	}
+	mk := func(name string, n int, opts ...opt) *Job {
+		sc := timedScen(name, n, "", append([]opt{withHeights(3), withK(k), withHorizon(40)}, opts...)...)
+		sc.SyncDefault = true
+		sc.Dev.Dup = false // duplicate candidates are ordered by payload hash, which depends on the epoch
+		return &Job{Kind: "c14", Scenario: sc, BudgetS: per}
+	}
+	for _, a := range []int64{-1, 0} {
+		jobs = append(jobs, mk("C14-N4-"+amevName(a), 4, withAMEV(a)))
+		jobs = append(jobs, mk("C14-N1-"+amevName(a), 1, withAMEV(a)))
+	}
+	jobs = append(jobs, mk("C14-N4-dyn-idle", 4, withDyn(20), withPool()))
+	jobs = append(jobs, mk("C14-N4-dyn-newtx", 4, withDyn(30), withPool(), withNewTx(12_500)))
+	jobs = append(jobs, mk("C14-N4-silent-primary", 4, withKind(primaryAt(5, 0, 4), kSilent)))
+	jobs = append(jobs, mk("C14-N4-silent-primary-of-height6", 4, withKind(primaryAt(6, 0, 4), kSilent)))
+	jobs = append(jobs, mk("C14-N2", 2))
+	// open environment: one real node, every reached state compared across epochs (view skips, recovery, re-requests)
+	for _, x := range []int{2, 0} {
+		sp := E2Spec{Views: 2, Proposals: "A", Responses: "A", RespPeers: 2, Commits: "A", CVs: 2, RecReq: true, Bundles: true, MaxDepth: 8, StateCap: 30_000}
+		if tier == "thorough" {
+			sp.StateCap = 1_000_000
+			sp.MaxDepth = 10
+		}
+		e := e2scen(fmt.Sprintf("C14-E2-N4-x%d", x), 4, x, -1, sp)
+		jobs = append(jobs, &Job{Kind: "c14", Scenario: e, BudgetS: per})
+		// proposal with a missing transaction (no response), change views that skip a view
+		sp2 := E2Spec{Views: 2, Proposals: "AB", Responses: "B", RespPeers: 2, CVs: 2, CVViews: 1, MaxDepth: 8, StateCap: sp.StateCap * 2}
+		e2 := e2scen(fmt.Sprintf("C14-E2-viewskip-N4-x%d", x), 4, x, -1, sp2)
+		jobs = append(jobs, &Job{Kind: "c14", Scenario: e2, BudgetS: per})
+	}
+	jobs = append(jobs, mk("C14-N7", 7, withK(0), withHeights(8)))
+	return jobs
+}
+
+func init() {
+	e1Check("C14", "E4: every complete path of the timed-mode E1 exploration (N=1,2,4,7; 3-8 heights; primary and backup roles with real round-trip measurements; forced view changes through silent primaries; dynamic block time idle / with a transaction appearing; anti-MEV off/on; <=k deviations) is re-executed on fresh instances under virtual epochs E0 + {-30y, -1d, +1 timestamp increment, +1d, +200y} (epochs on both sides of the machine's wall clock); oracle: per node the sequence of Timer.Reset/Extend arguments, broadcast payload summaries and accepted blocks is identical, with every timestamp shifted by exactly the offset; a schedule that is not executable under another epoch is a violation as well",
+		c14Jobs, func(a *Aggregate) string {
+			if a.Extra["paths_compared"] < 20 {
+				return "fewer than 20 complete paths were compared across epochs"
 			}
 			return ""
 		})
